@@ -244,6 +244,33 @@ def _k_system(c) -> CaseInfo:
     return CaseInfo(True, "system")
 
 
+def _k_from_utc(c) -> CaseInfo:
+    """FakeClock.from_utc(y, m, d[, h[, mi[, s]]]): the clock starts at that UTC civil time (omitted parts are zero),
+    with no auto-advance.  Oracle: datetime's proleptic Gregorian ordinal."""
+    import datetime as _dt
+
+    from pyoda_time import Duration
+    from pyoda_time.testing import FakeClock
+
+    patch_locks()
+    args = list(c["args"])
+    if not (3 <= len(args) <= 6) or not all(isinstance(a, int) for a in args):
+        raise InvalidCase
+    try:
+        d = _dt.date(*args[:3])
+    except ValueError:
+        raise InvalidCase from None
+    h, mi, sec = (args[3:] + [0, 0, 0])[:3]
+    if not (0 <= h < 24 and 0 <= mi < 60 and 0 <= sec < 60):
+        raise InvalidCase
+    want = ((d.toordinal() - 719163) * 86400 + h * 3600 + mi * 60 + sec) * 10**9
+    clock = FakeClock.from_utc(*args)
+    need(Z.ns(clock.get_current_instant()) == want, "from_utc/start", f"{args}")
+    need(clock.auto_advance == Duration.zero, "from_utc/auto-advance-not-zero")
+    need(Z.ns(clock.get_current_instant()) == want, "from_utc/second-read")
+    return CaseInfo(len(args) < 6 or bool(h or mi or sec), f"from_utc:{len(args)}args")
+
+
 def _k_system_scripted(c) -> CaseInfo:
     """SystemClock over a scripted OS reading: the module's `time` is replaced by a shim whose time_ns() returns the
     scripted value (any epoch-relative reading an OS clock can deliver, also before 1970 and with sub-second parts).
@@ -459,6 +486,10 @@ def task_seq(ctx: Ctx, shard: int, n: int) -> None:
         s,
     )
     ctx.case("system", {})
+    for k in range(40):
+        r = sub_seed(ctx.seed, "c19utc", shard, k)
+        args = [1 + r % 9999, 1 + (r >> 16) % 12, 1 + (r >> 24) % 28, (r >> 32) % 24, (r >> 40) % 60, (r >> 48) % 60]
+        ctx.case("from_utc", {"args": args[: 3 + k % 4]})
     # scripted OS readings: around the epoch, sub-second parts of both signs, the ends of the Instant range
     for base in (0, -1, 1, -10**9, 10**9, -1_500_000_000, 1_709_251_200_123_456_789, -(10**18), Z.INST_MIN, Z.INST_MAX, Z.INST_MIN - 1, Z.INST_MAX + 1):
         for dl in (0, -1, 1, 999_999_999, -999_999_999, sub_seed(ctx.seed, "c19sys", shard, base) % 10**9):
